@@ -270,6 +270,57 @@ Section Sem.
       + exact (Hq q Hne _ Grest).
   Qed.
 
+  (* the rule of resolution is a semantic entailment for EVERY assignment, not only for solutions *)
+  Lemma prior_cause_entails i j ti tj p pc :
+    NoDup (keys ti) -> NoDup (keys tj) -> twf_all ti -> twf_all tj ->
+    prior_cause O i j ti tj p = Good pc ->
+    forall a : assignment, violates a (terms pc) -> violates a ti \/ violates a tj.
+  Proof.
+    intros Ndi Ndj Wfi Wfj. unfold prior_cause, bind, req.
+    destruct (get p ti) as [t1|] eqn:E1; [|discriminate].
+    destruct (get p tj) as [t2|] eqn:E2; [|discriminate].
+    intros H. injection H as <-. cbn [terms].
+    assert (W1 : twf t1). { apply get_In in E1. unfold twf_all in Wfi. rewrite Forall_forall in Wfi. exact (Wfi _ E1). }
+    assert (W2 : twf t2). { apply get_In in E2. unfold twf_all in Wfj. rewrite Forall_forall in Wfj. exact (Wfj _ E2). }
+    set (rest := merge_terms O (remove p ti) (remove p tj)).
+    assert (Nrest : NoDup (keys rest)) by (apply merge_terms_nodup; now apply nodup_remove).
+    assert (Grest : forall q, q <> p -> get q rest =
+              match get q ti, get q tj with
+              | Some a, Some b => Some (t_intersection O a b) | Some a, None => Some a
+              | None, Some b => Some b | None, None => None end).
+    { intros q Hq. unfold rest. rewrite get_merge_terms by now apply nodup_remove.
+      rewrite !get_remove_other by congruence. reflexivity. }
+    set (u := t_union O t1 t2).
+    set (R := if t_eqb O u (t_any O) then rest else set p u rest).
+    assert (NR : NoDup (keys R)) by (unfold R; destruct (t_eqb O u (t_any O)); [exact Nrest|now apply nodup_set]).
+    intros a Hviol.
+    rewrite (violates_get a R NR) in Hviol.
+    assert (Hu : sat u (a p) = true).
+    { unfold R in Hviol. destruct (t_eqb O u (t_any O)) eqn:Eu.
+      - apply (t_eqb_spec O L) in Eu. rewrite Eu. apply sat_any.
+      - apply (Hviol p u). apply get_set_same. }
+    assert (Hq : forall q, q <> p -> forall t, get q rest = Some t -> sat t (a q) = true).
+    { intros q Hne t Hg. apply (Hviol q t). unfold R. destruct (t_eqb O u (t_any O)); [exact Hg|].
+      now rewrite get_set_other by congruence. }
+    unfold u in Hu. rewrite sat_union in Hu by assumption. apply orb_prop in Hu as [Hu|Hu].
+    - left. apply (violates_get a ti Ndi). intros q t Hg.
+      destruct (N.eq_dec q p) as [->|Hne]; [congruence|].
+      specialize (Grest q Hne). rewrite Hg in Grest. destruct (get q tj) as [t'|] eqn:Ej.
+      + pose proof (Hq q Hne _ Grest) as Hs.
+        assert (twf t) by (apply get_In in Hg; unfold twf_all in Wfi; rewrite Forall_forall in Wfi; exact (Wfi _ Hg)).
+        assert (twf t') by (apply get_In in Ej; unfold twf_all in Wfj; rewrite Forall_forall in Wfj; exact (Wfj _ Ej)).
+        rewrite sat_intersection in Hs by assumption. now apply andb_prop in Hs.
+      + exact (Hq q Hne _ Grest).
+    - right. apply (violates_get a tj Ndj). intros q t Hg.
+      destruct (N.eq_dec q p) as [->|Hne]; [congruence|].
+      specialize (Grest q Hne). rewrite Hg in Grest. destruct (get q ti) as [t'|] eqn:Ei.
+      + pose proof (Hq q Hne _ Grest) as Hs.
+        assert (twf t) by (apply get_In in Hg; unfold twf_all in Wfj; rewrite Forall_forall in Wfj; exact (Wfj _ Hg)).
+        assert (twf t') by (apply get_In in Ei; unfold twf_all in Wfi; rewrite Forall_forall in Wfi; exact (Wfi _ Ei)).
+        rewrite sat_intersection in Hs by assumption. now apply andb_prop in Hs.
+      + exact (Hq q Hne _ Grest).
+  Qed.
+
   (* a valid terminal incompatibility refutes every solution *)
   Lemma terminal_no_solution (i : incompat) :
     Valid (terms i) -> is_terminal O i r rv = true -> forall a, ~ Solution a.
